@@ -129,6 +129,7 @@ class Sub:
         self.monitoring = False
         self.results_json_seq = {}  # epoch -> last seq of results.json write
         self.resubmits = []
+        self.rerun_names = set()   # jobs reset to not_submitted by the resubmission that opened this epoch
 
     def launches_in_epoch(self, name, epoch=None):
         e = self.epoch if epoch is None else epoch
@@ -166,6 +167,20 @@ class Ctx:
 
     def crashed(self):
         return [v for v in self.w.vprocs if v.crash]
+
+    def clean_run(self):
+        """Fault-free profile AND no process ran into the 300 s lock timeout.  A legal stall
+        (slow Lustre, suspended node) that outlasts the timeout makes a waiter raise in the
+        middle of a round; such a run is an error history (C11's subject), so the oracles that
+        are stated for fault-free runs (completeness, liveness) do not apply to it.  Safety
+        monitors still do."""
+        if not self.fault_free:
+            return False
+        c = getattr(self, "_clean", None)
+        if c is None or c[0] != len(self.w.history):
+            c = (len(self.w.history), not any(r[2] == "lock_timeout" for r in self.w.history))
+            self._clean = c
+        return c[1]
 
 
 class Monitor:
@@ -266,6 +281,8 @@ class Tracker(Monitor):
                     sub.epoch_start_seq = seq
                     o["epoch"] = sub.epoch
                     o["new_epoch"] = True
+                    sub.rerun_names = {j["name"] for j in (o.get("js") or {}).get("jobs", [])
+                                       if j.get("state") == "not_submitted"}
                 if now and not was:
                     sub.complete_seq.setdefault(sub.epoch, seq)
                     o["completed_now"] = True
